@@ -394,3 +394,35 @@ package tcell
 //@   ensures [negative] k == KeyRune && ch < 0 ==> result.key == Key(ch) && result.ch == ch
 //@   ensures [del] k == KeyRune && ch == 0x7f ==> result.key == KeyBackspace2 && result.mod == mod && result.ch == ch
 //@   ensures [nonnil] result != nil
+
+// ---------------------------------------------------------------------------
+// C17: legacy character sets - encodeRune decision chain and CanDisplay, relative to what the
+// locale's encoder (assumed Transformer contract) returns for the UTF-8 encoding of the rune.
+// ---------------------------------------------------------------------------
+
+//@ pred appendedStr(res []byte, buf []byte, s string) = len(res) == len(buf) + len(s) &&
+//@        (forall k int :: 0 <= k && k < len(buf) ==> res[k] == buf[k]) &&
+//@        (forall k int :: 0 <= k && k < len(s) ==> res[len(buf)+k] == s[k])
+//@ pred appendedBytes(res []byte, buf []byte, src []byte, n int) = len(res) == len(buf) + n &&
+//@        (forall k int :: 0 <= k && k < len(buf) ==> res[k] == buf[k]) &&
+//@        (forall k int :: 0 <= k && k < n ==> res[len(buf)+k] == src[k])
+//@ pred encoderAccepts(n int, err error, first byte) = isNil(err) && n != 0 && first != 0x1a
+
+//@ func (*tScreen).encodeRune
+//@   arith bv
+//@   requires t.encoder != nil
+//@   calls [encoded] call(Transform, recv, pdst, psrc, peof, ret) ==> peof && (encoderAccepts(ret.0, ret.2, pdst[0]) ==> appendedBytes(result, buf, pdst, ret.0))
+//@   calls [acs] call(Transform, recv, pdst, psrc, peof, ret) ==> !encoderAccepts(ret.0, ret.2, pdst[0]) && len(buf) == 0 && has(t.acs, r) ==> appendedStr(result, buf, t.acs[r])
+//@   calls [fallback] call(Transform, recv, pdst, psrc, peof, ret) ==> !encoderAccepts(ret.0, ret.2, pdst[0]) && len(buf) == 0 && !has(t.acs, r) && has(t.fallback, r) ==> appendedStr(result, buf, t.fallback[r])
+//@   calls [question] call(Transform, recv, pdst, psrc, peof, ret) ==> !encoderAccepts(ret.0, ret.2, pdst[0]) && len(buf) == 0 && !has(t.acs, r) && !has(t.fallback, r) ==> appendedStr(result, buf, "?")
+//@   calls [elided] call(Transform, recv, pdst, psrc, peof, ret) ==> !encoderAccepts(ret.0, ret.2, pdst[0]) && len(buf) != 0 ==> sameslice(result, buf)
+//@   ensures [once] calls(Transform) == 1
+//@   modifies nothing
+
+//@ func (*tScreen).CanDisplay
+//@   arith bv
+//@   requires t.encoder != nil
+//@   calls [decision] call(Transform, recv, pdst, psrc, peof, ret) ==> peof &&
+//@            result == (encoderAccepts(ret.0, ret.2, pdst[0]) || has(t.acs, r) || (checkFallbacks && has(t.fallback, r)))
+//@   ensures [once] calls(Transform) == 1
+//@   modifies nothing
